@@ -518,6 +518,21 @@ def inline_new_locals(prog):
         want = ref.get(key)
         if want is not None:
             known = {n for n, _ in want}
+            # P22: `a, b = x, y` with new local names on the left and no dependency between the two sides -> `a = x; b = y`
+            for lst in list(_stmt_lists(fnode)):
+                i_ = 0
+                while i_ < len(lst):
+                    st_ = lst[i_]
+                    if isinstance(st_, ast.Assign) and len(st_.targets) == 1 and isinstance(st_.targets[0], ast.Tuple) and isinstance(st_.value, ast.Tuple) \
+                            and len(st_.targets[0].elts) == len(st_.value.elts) and all(isinstance(t, ast.Name) and t.id not in known for t in st_.targets[0].elts):
+                        names_ = {t.id for t in st_.targets[0].elts}
+                        if len(names_) == len(st_.targets[0].elts) and not any(isinstance(x, ast.Name) and x.id in names_ for v in st_.value.elts for x in ast.walk(v)):
+                            new_sts = [ast.copy_location(ast.Assign(targets=[t], value=v), st_) for t, v in zip(st_.targets[0].elts, st_.value.elts)]
+                            lst[i_:i_ + 1] = new_sts
+                            done.append("%s: tuple assignment of %s split" % (key, ", ".join(sorted(names_))))
+                            i_ += len(new_sts)
+                            continue
+                    i_ += 1
             changed = True
             rounds = 0
             while changed and rounds < 8:
